@@ -19,6 +19,8 @@ for d in sorted(glob.glob(f'/tmp/seed-C*-{tag}')):
         demo = open(f'{d}/out/{ab}_demo.rs').read()
         f = re.search(r'--features[ =]([A-Za-z0-9_,]+)', demo) or re.search(r'--features[ =]([A-Za-z0-9_,]+)', note)
         args = ['--features', f.group(1)] if f and f.group(1) not in ('default',) else []
+        if re.search(r'cargo test[^\n`]*--release', demo + note):   # a change that only shows without debug assertions
+            args = ['--demo-args', '--release' + (' --features ' + f.group(1) if args else '')]
         jobs.append((d, ab, pid, sid, args))
 
 def phase1(j):
